@@ -420,7 +420,7 @@ func checkLimit(prop string, sc *LimitSc, res *simrt.Result) Verdict {
 			v.probe("count-multiple-of-quantity")
 		}
 	case "C19", "C20":
-		checkGoroutines(&v, res, outClosed >= 0, "output closed")
+		checkGoroutines(&v, res, outClosed, "output closed", false)
 	}
 
 	return v
@@ -442,15 +442,31 @@ func stuck(res *simrt.Result) string {
 	return s
 }
 
-// checkGoroutines is the C19 oracle shared by all engines: once the discipline has
-// terminated and the run has gone quiet, no goroutine started from library code is left.
-func checkGoroutines(v *Verdict, res *simrt.Result, terminated bool, how string) {
-	if !terminated {
+// checkGoroutines is the C19 oracle shared by all engines. termSeq is the position of
+// the termination event in the history (-1: not terminated). When termination is a call
+// returning (v1 Stop / GracefulStop) every goroutine started from library code must have
+// exited before the call returned (strict). When it is a channel being closed, the
+// goroutines that observe the closure necessarily exit after it: then nothing started
+// from library code may be left once the run has gone quiet.
+func checkGoroutines(v *Verdict, res *simrt.Result, termSeq int64, how string, strict bool) {
+	if termSeq < 0 {
 		return
 	}
 
 	if alive := libTasksAlive(res); len(alive) > 0 {
 		v.fail("goroutine-left", "discipline terminated (%s) but %d of its goroutines remain: %v", how, len(alive), alive)
+		return
+	}
+
+	if !strict {
+		return
+	}
+
+	for _, r := range res.Hist {
+		if r.Kind == simrt.KExit && r.Lib && r.Seq > termSeq {
+			v.fail("goroutine-outlives-call", "%s (seq %d) while goroutine %d started at %s was still running (it exited at seq %d)", how, termSeq, r.Task, r.TaskName, r.Seq)
+			return
+		}
 	}
 }
 
